@@ -532,7 +532,8 @@ def stray_replies(rng, ops, p, cfg):
         elif r < 0.35:
             tag, svc = "%s_%x" % (idh, serial + rng.randint(1, 9)), rng.choice(names)
         elif r < 0.5:
-            tag, svc = rng.choice(["zz", "_", idh + "_", "_1", idh + "_1x", idh + "__1", "-" + idh + "_1", idh]), rng.choice(names)
+            # ("-0_1" is just another spelling of 0_1, so the sign form is only stray for ids other than 0)
+            tag, svc = rng.choice(["zz", "_", idh + "_", "_1", idh + "_1x", idh + "__1", ("-" + idh + "_1") if cid != 0 else "-_1", idh]), rng.choice(names)
         elif r < 0.65 and cid in cur:
             tag, svc = "1%08x_1%08x" % (cid & 0xffffffff, cur[cid]), rng.choice(names)
         elif r < 0.8 and cid in cur:
@@ -676,7 +677,7 @@ def gen_cases(prop, tier, seed):
                 continue
             base = scenario(rng, "c08/%d/base" % i)
             # chunking and junk variants are compared on the `in` stream only: no timeouts in between
-            body = [l for l in base.body() if not l.startswith("timeout ")]
+            body = [l for l in base.body() if not l.startswith("timeout ") and l != "elapse"]
             base = Case(base.name, body, tags=dict(base.tags, group="c08/%d" % i, role="base"))
             cases.append(base)
             hl = header_len(base) - 1
@@ -862,17 +863,17 @@ def judge_all(prop, cases, impl, model, spec):
             if not base:
                 continue
             hl = header_len(base[0][0]) - 1
-            b_lines = [l for cr in _outs(base[0][1])[hl:] for l in _lines_of(cr)]
+            b_lines = sort_slot_runs([l for cr in _outs(base[0][1])[hl:] for l in _lines_of(cr)])
             for c, ir in members:
                 role = c.tags.get("role")
                 if role == "chunk":
-                    v_lines = [l for cr in _outs(ir)[hl:] for l in _lines_of(cr)]
+                    v_lines = sort_slot_runs([l for cr in _outs(ir)[hl:] for l in _lines_of(cr)])
                     if v_lines != b_lines:
                         finding(c, 0, "C08: the same byte stream in different read() chunks is treated differently", [base[0], (c, ir)])
                 elif role == "junk":
                     marks = set(m + hl for m in c.tags["junk"])
                     v = _outs(ir)
-                    kept = [l for i, cr in enumerate(v) if i >= hl and i not in marks for l in _lines_of(cr)]
+                    kept = sort_slot_runs([l for i, cr in enumerate(v) if i >= hl and i not in marks for l in _lines_of(cr)])
                     bad = [l for i in marks if i < len(v) for l in _lines_of(v[i]) if CLIENT.match(l) or l.startswith(b"X ")]
                     if bad:
                         finding(c, min(marks), "C08: a junk line produced a client-directed message %r" % (bad[:1],), [base[0], (c, ir)])
@@ -927,7 +928,35 @@ def canon_out(hexs):
         if l.startswith(b"S class :") and b" clients already had classes" in l:
             l = TIMING.sub(b"(in T sec)", l)
         out.append(l)
-    return out
+    return sort_slot_runs(out)
+
+
+def sort_slot_runs(out):
+    """the slot a service occupies in the xquery vector is not observable behaviour (it depends on
+    how many intermediate rescans a reload triggered): runs of per-service lines are compared as sets"""
+    res, i = [], 0
+    while i < len(out):
+        k = _slot_kind(out[i])
+        if k is None:
+            res.append(out[i])
+            i += 1
+            continue
+        j = i
+        while j < len(out) and _slot_kind(out[j]) == k:
+            j += 1
+        res.extend(sorted(out[i:j]))
+        i = j
+    return res
+
+
+def _slot_kind(l):
+    if l.startswith(b"X "):
+        return b"X"
+    if l.startswith(b"A xquery :"):
+        return b"A"
+    if l.startswith(b"S xquery : ") or l.startswith(b"S xquery :-"):
+        return b"S"
+    return None
 
 
 def canon_record(rec):
@@ -994,7 +1023,8 @@ THEOREMS = {
             "Iauthd.Properties.C06_limits", "Iauthd.Properties.C06_prefix"],
     "C07": ["Iauthd.Properties.C07_event_frame", "Iauthd.Properties.C07_drop_frame", "Iauthd.Properties.C07_reply_frame",
             "Iauthd.Properties.C07_announce_frame", "Iauthd.Properties.C07_handler_input", "Iauthd.Proto.withReq_others"],
-    "C08": ["Iauthd.Properties.C08_no_fault", "Iauthd.Properties.C08_line_total", "Iauthd.Proto.stepChunk_total",
+    "C08": ["Iauthd.Properties.C08_no_fault", "Iauthd.Properties.C08_line_total", "Iauthd.Properties.C08_chunking",
+            "Iauthd.Properties.C08_split", "Iauthd.Proto.splitLines_append", "Iauthd.Proto.feedAll_join", "Iauthd.Proto.stepChunk_total",
             "Iauthd.Proto.stepTimeout_total", "Iauthd.Proto.accept_ok", "Iauthd.Proto.gate_ok", "Iauthd.Proto.reqEvent_ok",
             "Iauthd.Proto.xqReply_ok", "Iauthd.Proto.newClient_ok", "Iauthd.Proto.ptonC_safe", "Iauthd.Addr.pton_safe"],
     "C09": ["Iauthd.Properties.C09_client_line", "Iauthd.Properties.C09_announced", "Iauthd.Properties.C09_address_text",
